@@ -9,8 +9,21 @@ QUICK = ["messages.RequestMessage", "messages.ResponseMessage", "messages.Reques
          "encrypt.EncryptRequestPayload", "get.GetRequestPayload", "query.QueryRequestPayload"]
 
 
+def session_answers(version, resp_n):
+    """Every answer the session sends - success, each error class, parse failure, authentication failure,
+    oversize replacement - is one well-formed message following the envelope (the C12 loop harness; its
+    walker/envelope assertions are this property's subject)."""
+    from harness import c12
+    return c12.one_response(version, resp_n)
+
+
 def conditions(tier):
     out = []
+    for v in ([(1, 0), (1, 2), (2, 0)] if tier != "thorough" else [(1, 0), (1, 1), (1, 2), (1, 3), (1, 4), (2, 0)]):
+        out.append(Cond("session-answers-%d.%d" % v, "session_answers", dict(version=list(v), resp_n=1),
+                        bounds="the real session loop: certificate shape, parser outcome, identity, engine outcome, client "
+                               "maximum response size symbolic; every byte string handed to sendall is walked",
+                        timeout=900, part="session-answers"))
     for c in c01s.conditions(tier):
         nm = c.kwargs["name"]
         if tier != "thorough" and nm not in QUICK:
